@@ -149,7 +149,7 @@ def run(case):
     if kind == "int":
         if idx < 0:
             tags.append("int:negative")
-        i = idx if case.get("np") is None else np.int64(idx)
+        i = idx if case.get("np") is None else (np.int64(idx) if case["np"] is True else np.dtype(case["np"]).type(idx))
         exp = v[idx]
         a = attempt(lambda: r[i])
         dec = lambda x: np.asarray(x)
@@ -261,11 +261,33 @@ def gen_case(rng, tier, kind=None, dtype=None):
     kind = kind or rng.choice(KINDS)
     vals = v.tolist()
     if kind == "int":
+        if rng.random() < 0.2:
+            Lm = rng.randint(65, 127)
+            vals = (vals * (Lm // L + 1))[:Lm]
+            L = Lm
         c = mk_case(dtype, vals, kind, rng.randint(-L, L - 1))
-        if rng.random() < 0.5:
-            c["np"] = True
+        if rng.random() < 0.6:
+            fits = [d for d in gen.NP_INTS if np.iinfo(d).min <= c["idx"] <= np.iinfo(d).max]
+            c["np"] = rng.choice(fits)          # a numpy integer of any type that holds the position (possibly not position + length)
         return c
     if kind in ("list", "array"):
+        u_ = rng.random()
+        if kind == "array" and u_ < 0.25:
+            # a mid-length array indexed through a NARROW index type that can hold every position but not position + length
+            Lm, it_ = rng.choice([(rng.randint(65, 127), "int8"), (rng.randint(129, 255), "uint8"), (rng.randint(65, 127), "int8"), (rng.randint(200, 255), "int16")])
+            vals = (vals * (Lm // L + 1))[:Lm]
+            L = Lm
+            lo_ = 0 if it_ == "uint8" else -L
+            c = mk_case(dtype, vals, kind, [rng.randint(lo_, L - 1) for _ in range(rng.randint(1, 9))] + ([-1, -L] if lo_ else [L - 1]))
+            c["idtype"] = it_
+            return c
+        if u_ > 0.92:
+            # more look-ups than the array has elements (at least 1024 of them), negative positions among them
+            m_ = rng.randint(1024, 1500)
+            c = mk_case(dtype, vals, kind, [rng.randint(-L, L - 1) for _ in range(m_)])
+            if kind == "array":
+                c["idtype"] = rng.choice(["int64", "int32"])
+            return c
         c = mk_case(dtype, vals, kind, [rng.randint(-L, L - 1) for _ in range(rng.randint(1, 7))])
         if kind == "array":
             c["readonly"] = rng.random() < 0.3
